@@ -228,3 +228,106 @@ Proof.
   intros Hw FO Hin. pose proof (cp_opt_upper g k Hw FO [n] 0 n lat (ch_one g n) eq_refl Hin) as H.
   cbn in H. lra.
 Qed.
+
+(* ---------------------------------------------------------------- attainment: cp_opt IS the length of some chain *)
+Lemma cpmax_cases a b : cpmax a b = a \/ cpmax a b = b.
+Proof. unfold nmax. destruct (nltb QNum a b); auto. Qed.
+
+Lemma arrive_fold_cases (thr : list (nat * Q)) n : forall g a,
+  let r := fold_left (fun m e => let '((s, isld), t, w) := e in
+                        if andb (negb isld) (Nat.eqb t n)
+                        then match lookup thr s with Some x => cpmax m (cpadd x w) | None => m end
+                        else m) g a in
+  r = a \/ exists s w x, In ((s, false), n, w) g /\ lookup thr s = Some x /\ r == x + w.
+Proof.
+  induction g as [|[[[s isld] t] w] g IH]; intros a; cbn [fold_left]; [left; reflexivity|].
+  set (a' := if andb (negb isld) (Nat.eqb t n)
+             then match lookup thr s with Some x => cpmax a (cpadd x w) | None => a end else a).
+  destruct (IH a') as [E|(s0 & w0 & x0 & Hin & Hl & Hr)].
+  - (* result = a' *)
+    cbv zeta in E. rewrite E. subst a'.
+    destruct isld; cbn [negb andb]; [left; reflexivity|].
+    destruct (Nat.eqb t n) eqn:Et; [|left; reflexivity]. apply Nat.eqb_eq in Et. subst t.
+    destruct (lookup thr s) as [x|] eqn:L; [|left; reflexivity].
+    destruct (cpmax_cases a (cpadd x w)) as [C|C]; rewrite C; [left; reflexivity|].
+    right. exists s, w, x. repeat split; auto. left. reflexivity. apply cpadd_eq.
+  - right. exists s0, w0, x0. repeat split; auto. right. exact Hin.
+Qed.
+
+Definition through_attained (g : list qedge) (thr : list (nat * Q)) : Prop :=
+  forall n x, lookup thr n = Some x -> exists c e, chain g c e /\ last_of c = n /\ e + loadw QNum g (first_of c) == x.
+
+Lemma loadw_nonneg g n : (forall s isld t w, In ((s, isld), t, w) g -> 0 <= w) -> 0 <= loadw QNum g n.
+Proof. intros Hw. unfold loadw. apply loadw_nonneg_fold; [cbn; lra | exact Hw]. Qed.
+
+Lemma chain_snoc1 g c n m w e : chain g (c ++ [n]) e -> has_edge g n m w -> chain g ((c ++ [n]) ++ [m]) (e + w).
+Proof. intros H He. rewrite <- app_assoc. cbn [app]. eapply ch_snoc; eassumption. Qed.
+
+Lemma chain_nonempty_split g c e : chain g c e -> exists c0 n, c = c0 ++ [n].
+Proof. intros H. destruct H; [exists [], n; reflexivity | exists (c ++ [n]), m; rewrite <- app_assoc; reflexivity]. Qed.
+
+Lemma step_through_attained g thr n :
+  (forall s isld t w, In ((s, isld), t, w) g -> 0 <= w) ->
+  through_attained g thr ->
+  through_attained g ((n, cpmax (arrive g thr n) (loadw QNum g n)) :: thr).
+Proof.
+  intros Hw TA m x Hx. destruct (Nat.eq_dec m n) as [->|Ne].
+  - rewrite lookup_cons_eq in Hx. inversion Hx; subst x. clear Hx.
+    destruct (cpmax_cases (arrive g thr n) (loadw QNum g n)) as [C|C]; rewrite C.
+    + destruct (arrive_fold_cases thr n g (n0 QNum)) as [E|(s & w & xs & Hin & Hl & Hr)]; fold (arrive g thr n) in *.
+      * (* arrive = 0: the singleton chain, and loadw <= 0 hence = 0 *)
+        exists [n], 0. repeat split; [constructor|]. unfold first_of. cbn [hd].
+        pose proof (cpmax_r (arrive g thr n) (loadw QNum g n)) as R. rewrite C, E in R. cbn [n0 QNum] in R.
+        pose proof (loadw_nonneg g n Hw). rewrite E. cbn [n0 QNum]. lra.
+      * destruct (TA s xs Hl) as (c & e & Hc & Hlast & Hval).
+        destruct (chain_nonempty_split _ _ _ Hc) as (c0 & s' & Ec). subst c. rewrite last_snoc1 in Hlast. subst s'.
+        exists ((c0 ++ [s]) ++ [n]), (e + w). repeat split.
+        -- apply chain_snoc1; assumption.
+        -- unfold last_of. apply last_last.
+        -- rewrite <- app_assoc. cbn [app]. rewrite first_snoc. rewrite Hr. lra.
+    + exists [n], 0. repeat split; [constructor|]. unfold first_of. cbn [hd]. lra.
+  - rewrite lookup_cons_neq in Hx by exact Ne. apply TA. exact Hx.
+Qed.
+
+Lemma cp_go_attained g : (forall s isld t w, In ((s, isld), t, w) g -> 0 <= w) ->
+  forall k thr best,
+  through_attained g thr ->
+  cp_go QNum g k thr best = best \/
+  exists c e n lat, chain g c e /\ last_of c = n /\ In (n, lat) k /\
+    (match c with _ :: _ :: _ => e + loadw QNum g (first_of c) | _ => e end) + lat == cp_go QNum g k thr best.
+Proof.
+  intros Hw. induction k as [|[m latm] k IH]; intros thr best TA; cbn [cp_go]; [left; reflexivity|].
+  fold (arrive g thr m).
+  set (best' := cpmax best (cpadd (arrive g thr m) latm)).
+  destruct (IH ((m, cpmax (arrive g thr m) (loadw QNum g m)) :: thr) best' (step_through_attained g thr m Hw TA))
+    as [E|(c & e & n & lat & Hc & Hl & Hin & Hv)].
+  - rewrite E. subst best'. destruct (cpmax_cases best (cpadd (arrive g thr m) latm)) as [C|C]; rewrite C; [left; reflexivity|].
+    right.
+    destruct (arrive_fold_cases thr m g (n0 QNum)) as [E0|(s & w & xs & Hin & Hl & Hr)]; fold (arrive g thr m) in *.
+    + exists [m], 0, m, latm. repeat split; [constructor | left; reflexivity|].
+      pose proof (cpadd_eq (arrive g thr m) latm) as A. rewrite E0 in *. change (n0 QNum) with 0 in *. lra.
+    + destruct (TA s xs Hl) as (c & e & Hc & Hlast & Hval).
+      destruct (chain_nonempty_split _ _ _ Hc) as (c0 & s' & Ec). subst c. rewrite last_snoc1 in Hlast. subst s'.
+      exists ((c0 ++ [s]) ++ [m]), (e + w), m, latm. repeat split.
+      * apply chain_snoc1; assumption.
+      * unfold last_of. apply last_last.
+      * left. reflexivity.
+      * pose proof (cpadd_eq (arrive g thr m) latm) as A.
+        assert (Sh : match (c0 ++ [s]) ++ [m] with _ :: _ :: _ => e + w + loadw QNum g (first_of ((c0 ++ [s]) ++ [m])) | _ => e + w end
+                     == e + w + loadw QNum g (first_of (c0 ++ [s]))).
+        { rewrite <- app_assoc. cbn [app]. rewrite first_snoc. destruct c0 as [|a0 [|b0 c0]]; cbn [app]; reflexivity. }
+        rewrite Sh. lra.
+  - right. exists c, e, n, lat. repeat split; auto. right. exact Hin.
+Qed.
+
+(* the optimum is attained by a chain of the kernel (when some instruction has a positive latency or, in general,
+   whenever cp_opt is not the initial 0) *)
+Theorem cp_opt_attained g k :
+  (forall s isld t w, In ((s, isld), t, w) g -> 0 <= w) ->
+  cp_opt QNum g k = 0 \/
+  exists c e n lat, chain g c e /\ last_of c = n /\ In (n, lat) k /\
+    (match c with _ :: _ :: _ => e + loadw QNum g (first_of c) | _ => e end) + lat == cp_opt QNum g k.
+Proof.
+  intros Hw. unfold cp_opt. apply (cp_go_attained g Hw k [] (n0 QNum)).
+  intros n x Hx. discriminate.
+Qed.
